@@ -95,6 +95,15 @@ func genC10Facts() (string, string) {
 		b.WriteString("[" + joinLean(c) + "]")
 	}
 	b.WriteString("]\n")
+	ab := caseLiterals(parse("validation/external.go"), "asBoolean")
+	b.WriteString("/-- `case` lists inside validation.asBoolean (type cases and the table of spellings read from a not-yet-cast string), in source order -/\ndef c10_asBooleanCases : List (List String) := [")
+	for i, c := range ab {
+		if i > 0 {
+			b.WriteString(", ")
+		}
+		b.WriteString("[" + joinLean(c) + "]")
+	}
+	b.WriteString("]\n")
 	val := parse("validation/validation.go")
 	fmt.Fprintf(&b, "def c10_validationErrorSites : List String := [%s]\n", joinLean(append(append(errorSites(val, "checkFileObject"), errorSites(val, "checkPath")...), errorSites(val, "checkDeviceRequest")...)))
 	fmt.Fprintf(&b, "def c10_graphErrorSites : List String := [%s]\n", joinLean(append(errorSites(parse("graph/services.go"), "newGraph"), errorSites(parse("graph/cycle.go"), "searchCycle")...)))
@@ -118,6 +127,8 @@ func genC10Facts() (string, string) {
 		{"c10_body_checkDeviceRequest", funcBody(val, "", "checkDeviceRequest")},
 		{"c10_body_checkExternal", funcBody(parse("validation/external.go"), "", "checkExternal")},
 		{"c10_body_checkVolume", funcBody(parse("validation/volume.go"), "", "checkVolume")},
+		// round 6: the helper that reads `external` when the cast table has not run (SkipInterpolation)
+		{"c10_body_asBoolean", funcBody(parse("validation/external.go"), "", "asBoolean")},
 	} {
 		fmt.Fprintf(&b, "def %s : String := %s\n", e.name, leanStr(e.body))
 	}
